@@ -10,9 +10,65 @@
     written from docs/validation.rst and the text of C19); [unit_assumptions] is everything that
     is assumed about the unit predicates. *)
 From Coq Require Import ZArith Bool String List.
-Require Import NixV.Base.Prelude NixV.Valid.Validator NixV.Valid.ValidSpec NixV.Valid.ValidProofs.
+Require Import NixV.Base.Prelude NixV.Gen.GenValidate NixV.Valid.Validator NixV.Valid.ValidSpec NixV.Valid.ValidProofs
+  NixV.Valid.ValidRules NixV.Valid.ValidRulesProofs.
 Import ListNotations.
+Local Open Scope string_scope.
 Local Open Scope Z_scope.
+
+(** The rule tables of the model are the rule tables of src/valid/validate.cpp: [GenValidate.validate_rules] /
+    [validate_bases] are regenerated from the source on every run (tools/translate/gen.py: per validate
+    function the ordered rules with combinator, getter, check functor and its arguments, message, nested
+    sub-rules, and the function whose result is concatenated after them); [model_rules] / [model_bases] are
+    the hand model's description of its tables.  A must turned into a should, a dropped, added or reordered
+    rule, a changed getter, functor, argument, message or nesting in validate.cpp breaks this theorem. *)
+Theorem C19_rule_tables_are_generated :
+  model_rules = GenValidate.validate_rules /\ model_bases = GenValidate.validate_bases.
+Proof. exact (conj rules_are_generated bases_are_generated). Qed.
+Print Assumptions C19_rule_tables_are_generated.
+
+(** ... and the executable tables of the model are the interpretation of that description (combinator,
+    order, nesting, message and base call come from the description; the environment of an entity kind maps
+    a (getter, check, arguments) triple of the source to the observation and check function of the model) *)
+Theorem C19_tables_are_interpretations : forall isSI isCompound isScalable vt,
+  (forall a, validate_array isSI isCompound a =
+             rconcat (table model_rules "DataArray" (e_id (n_ent (a_ent a))) (env_array isSI isCompound a))
+                     (named_base (lookup "" "DataArray" model_bases) (a_ent a)))
+  /\ (forall t, validate_tag isSI isCompound isScalable vt t =
+             rconcat (table model_rules "Tag" (e_id (n_ent (t_ent t))) (env_tag isSI isCompound isScalable vt t))
+                     (named_base (lookup "" "Tag" model_bases) (t_ent t)))
+  /\ (forall m, validate_mtag isSI isCompound isScalable vt m =
+             rconcat (table model_rules "MultiTag" (e_id (n_ent (m_ent m))) (env_mtag isSI isCompound isScalable vt m))
+                     (named_base (lookup "" "MultiTag" model_bases) (m_ent m)))
+  /\ (forall p, validate_property isSI isCompound propUnit_variant p =
+             rconcat (table model_rules "Property" (e_id (p_ent p)) (env_property isSI isCompound p))
+                     (ent_base (lookup "" "Property" model_bases) (p_ent p)))
+  /\ (forall idx ticks unit, validate_range_dim isSI idx ticks unit =
+             table model_rules "RangeDimension" unknown_id (env_range isSI idx ticks unit))
+  /\ (forall idx interval offset unit, validate_sampled_dim isSI idx interval offset unit =
+             table model_rules "SampledDimension" unknown_id (env_sampled isSI idx interval offset unit))
+  /\ (forall idx, validate_set_dim idx = table model_rules "SetDimension" unknown_id (env_set idx))
+  /\ (forall f, validate_feature f =
+             rconcat (table model_rules "Feature" (e_id (f_ent f)) (env_feature f))
+                     (ent_base (lookup "" "Feature" model_bases) (f_ent f)))
+  /\ (forall n, validate_named_entity n =
+             rconcat (table model_rules "validate_named_entity" (e_id (n_ent n)) (env_named n))
+                     (named_base (lookup "" "validate_named_entity" model_bases) n))
+  /\ (forall e, validate_entity e = table model_rules "validate_entity" (e_id e) (env_entity e))
+  /\ (forall n, validate_entity_with_metadata n = named_base (lookup "" "validate_entity_with_metadata" model_bases) n
+             /\ validate_entity_with_sources n = named_base (lookup "" "validate_entity_with_sources" model_bases) n
+             /\ validate_block n = named_base (lookup "" "Block" model_bases) n
+             /\ validate_section n = named_base (lookup "" "Section" model_bases) n
+             /\ validate_source n = named_base (lookup "" "Source" model_bases) n).
+Proof.
+  exact (fun a b c vt =>
+    conj (table_array a b propUnit_variant) (conj (table_tag a b c vt propUnit_variant)
+   (conj (table_mtag a b c vt propUnit_variant) (conj (table_property a b propUnit_variant)
+   (conj (table_range a propUnit_variant) (conj (table_sampled a propUnit_variant) (conj (table_set propUnit_variant)
+   (conj (table_feature propUnit_variant) (conj (table_named propUnit_variant) (conj (table_entity propUnit_variant)
+         table_delegations)))))))))).
+Qed.
+Print Assumptions C19_tables_are_interpretations.
 
 (** File::validate reports exactly what the rule tables of the visited entities report, entity
     by entity (blocks, arrays, range/set/sampled dimensions, multi-tags, tags, their features,
